@@ -8,6 +8,7 @@ import (
 	"go/constant"
 	"go/token"
 	"go/types"
+	"regexp"
 	"sort"
 	"strings"
 
@@ -16,7 +17,19 @@ import (
 
 // typeSwitchArms returns, for the first type switch in fi whose subject is the expression named
 // subj (identifier), the set of case types (as strings) and whether a default exists.
+var anyWord = regexp.MustCompile(`\bany\b`)
+
+// typeSwitchArms: the case types of the type switch over the variable called subj — or, when no type switch is over a
+// variable of that name (locals get renamed), of the first type switch with at least three arms.
 func typeSwitchArms(fi *FuncInfo, subj string) (arms []string, hasDefault bool, pos token.Pos, ok bool) {
+	arms, hasDefault, pos, ok = typeSwitchArmsOf(fi, subj, 0)
+	if !ok && subj != "" {
+		arms, hasDefault, pos, ok = typeSwitchArmsOf(fi, "", 3)
+	}
+	return
+}
+
+func typeSwitchArmsOf(fi *FuncInfo, subj string, minArms int) (arms []string, hasDefault bool, pos token.Pos, ok bool) {
 	info := fi.Pkg.TypesInfo
 	ast.Inspect(fi.Decl.Body, func(n ast.Node) bool {
 		ts, isTS := n.(*ast.TypeSwitchStmt)
@@ -38,6 +51,14 @@ func typeSwitchArms(fi *FuncInfo, subj string) (arms []string, hasDefault bool, 
 		if !isId || (subj != "" && id.Name != subj) {
 			return true
 		}
+		if n := 0; minArms > 0 {
+			for _, st := range ts.Body.List {
+				n += len(st.(*ast.CaseClause).List)
+			}
+			if n < minArms {
+				return true
+			}
+		}
 		ok = true
 		pos = ts.Pos()
 		for _, st := range ts.Body.List {
@@ -47,7 +68,8 @@ func typeSwitchArms(fi *FuncInfo, subj string) (arms []string, hasDefault bool, 
 			}
 			for _, e := range cc.List {
 				if t := info.TypeOf(e); t != nil {
-					arms = append(arms, types.TypeString(t, nil))
+					// `any` and `interface{}` are two spellings of one type
+					arms = append(arms, anyWord.ReplaceAllString(types.TypeString(t, nil), "interface{}"))
 				}
 			}
 		}
